@@ -61,6 +61,8 @@ type Contract struct {
 	Nilable      bool                 // the receiver may be nil (no non-nil assumption at entry)
 	LemmaList    []string             // if HasLemmaList: only these lemmas are added as axioms
 	HasLemmaList bool
+	ClosedWorld  bool   // interface contract: every implementation in the module is verified against it
+	Implements   string // "Iface.Method": the interface contract this method must also satisfy (behavioural subtyping)
 	TypedHeap    bool // state well-typedness of unconstrained heap versions as axioms (needed for heap reads in specs)
 	File         string
 	Line         int
@@ -125,7 +127,7 @@ type ContractSet struct {
 var clauseKeywords = map[string]bool{
 	"func": true, "spec": true, "extern": true, "iface": true, "closure": true, "callback": true, "requires": true, "ensures": true,
 	"loop": true, "modifies": true, "inline": true, "noinline": true, "trusted": true, "pure": true, "lemma": true,
-	"axiom": true, "ghost": true, "type": true, "opaque": true, "noreturn": true, "replay": true, "recspec": true, "uspec": true, "uses": true, "nilable": true, "typedheap": true, "lemmas": true, "immutable": true, "atcall": true,
+	"axiom": true, "ghost": true, "type": true, "opaque": true, "noreturn": true, "replay": true, "recspec": true, "uspec": true, "uses": true, "nilable": true, "implements": true, "closedworld": true, "typedheap": true, "lemmas": true, "immutable": true, "atcall": true,
 }
 
 var propsRe = regexp.MustCompile(`^\[((?:C[0-9]+)(?:\s*,\s*C[0-9]+)*)\]\s*`)
@@ -391,6 +393,14 @@ func (cs *ContractSet) LoadFile(path, pkgPath string) {
 		case "typedheap":
 			if cur != nil {
 				cur.TypedHeap = true
+			}
+		case "closedworld":
+			if cur != nil {
+				cur.ClosedWorld = true
+			}
+		case "implements":
+			if cur != nil {
+				cur.Implements = strings.TrimSpace(rest)
 			}
 		case "immutable":
 			// immutable name "contents"
